@@ -109,6 +109,10 @@ impl St {
       self.len = 0;
     }
   }
+  /// broadcast with several receivers: the single-queue estimate does not apply
+  fn bc_multi(&self) -> bool {
+    self.kind == "bc" && self.count(false) > 1
+  }
   fn quiesce(&self) {
     if !self.futs.is_empty() || self.hs.iter().any(|h| h.stream_op.is_some()) {
       hist::rec_quiesce(&[]);
@@ -122,7 +126,7 @@ fn pick<'a, T>(rng: &mut StdRng, v: &'a [T]) -> &'a T {
 
 pub fn run_program(cfg: &Cfg) {
   let fl = flavour(&cfg.flavour);
-  let cap = if fl.kind == "q" && fl.bounded { cfg.cap } else { 0 };
+  let cap = if (fl.kind == "q" || fl.kind == "bc") && fl.bounded { cfg.cap } else { 0 };
   let (t, r) = make(&cfg.flavour, cfg.cap.max(1));
   let mut st = St {
     rng: StdRng::seed_from_u64(cfg.seed),
@@ -368,7 +372,7 @@ fn send_op(st: &mut St, i: usize, cfg: &Cfg) {
   };
   // blocking forms only where the model says they cannot block forever
   let pending_send = st.futs.iter().any(|f| f.is_send);
-  if !op.starts_with("f:") && !op.starts_with("try") && !rejected && (n > space || st.uncertain || pending_send) {
+  if !op.starts_with("f:") && !op.starts_with("try") && !rejected && (n > space || st.uncertain || pending_send || st.bc_multi()) {
     return;
   }
   let vs = st.toks(n);
@@ -451,7 +455,7 @@ fn recv_op(st: &mut St, i: usize, cfg: &Cfg) {
   let op = *pick(&mut st.rng, &ops);
   let max = if op.contains("batch") { st.rng.random_range(1..=5) } else { 1 };
   let pending_recv = st.futs.iter().any(|f| !f.is_send) || st.hs.iter().any(|h| h.stream_op.is_some());
-  let sure = st.hs[i].closed || st.live(true) == 0 || (st.len > 0 && !st.uncertain && !pending_recv);
+  let sure = st.hs[i].closed || st.live(true) == 0 || (st.len > 0 && !st.uncertain && !pending_recv && !st.bc_multi());
   if matches!(op, "recv" | "recv_batch" | "recv_batch_mut") && !sure {
     return;
   }
